@@ -3,6 +3,7 @@ package main
 import (
 	"bytes"
 	"context"
+	"encoding/hex"
 	"fmt"
 	"io"
 	"net/url"
@@ -36,6 +37,7 @@ func init() {
 type backupImpl struct {
 	eng       engineImpl
 	client    *litefs.FileBackupClient
+	xdbs      map[string]bool // names of second databases made with `xdb`
 	cloud     *fakeLFSC // non-nil: the store uses the LiteFS Cloud client against this local server
 	dir       string
 	loop      bool      // the store was opened with the continuous sync loop
@@ -184,6 +186,54 @@ func (m *backupImpl) Do(line string) string {
 			return m.eng.withExit("err")
 		}
 		return m.eng.withExit("ok")
+	case "xdb": // xdb <hex of name> <image>: a second database of the node (created if absent), one transaction that replaces its content
+		if len(f) != 3 || m.eng.store == nil {
+			return "bad-op"
+		}
+		nb, err := hex.DecodeString(f[1])
+		data, ok := bytesOf(f[2])
+		if err != nil || !ok || len(nb) == 0 {
+			return "bad-op"
+		}
+		db, err := m.eng.store.CreateDBIfNotExists(string(nb))
+		if err != nil {
+			return "err"
+		}
+		db.Now = func() time.Time { return fixedNow }
+		if err := db.Import(ctx, bytes.NewReader(data)); err != nil {
+			return "err"
+		}
+		if m.xdbs == nil {
+			m.xdbs = map[string]bool{}
+		}
+		m.xdbs[string(nb)] = true
+		return "ok"
+	case "xdb-check": // after a sync: the service holds every second database under its own name at the node's position
+		if m.eng.store == nil {
+			return "bad-op"
+		}
+		pm, err := m.client.PosMap(ctx)
+		if err != nil {
+			return "err"
+		}
+		for name := range pm {
+			if name != "db" && !m.xdbs[name] {
+				return fmt.Sprintf("mismatch: the service holds a database %q the node does not have", name)
+			}
+		}
+		for name := range m.xdbs {
+			db := m.eng.store.DB(name)
+			if db == nil {
+				return fmt.Sprintf("mismatch: database %q is gone", name)
+			}
+			if got, want := pm[name], db.Pos(); got != want {
+				return fmt.Sprintf("mismatch: the service holds %q at %s, the node is at %s", name, got, want)
+			}
+			if uint64(db.HWM()) > uint64(pm[name].TXID) {
+				return fmt.Sprintf("mismatch: high-water mark of %q (%d) exceeds the service's position (%d)", name, uint64(db.HWM()), uint64(pm[name].TXID))
+			}
+		}
+		return "ok"
 	case "hwm":
 		if m.eng.db == nil {
 			return "nodb"
@@ -300,6 +350,7 @@ func genBackup(c *Ctx) error {
 	}
 	directedBackupLoop(c)
 	directedReplicaRetention(c)
+	directedSecondDatabase(c)
 	for h := 0; h < nHist; h++ {
 		ps := pick(r, []int{512, 1024, 4096})
 		cs := c.Begin()
@@ -582,5 +633,46 @@ func directedBackupLoop(c *Ctx) {
 		c.Count("directed.backup-loop")
 		c.Nontrivial(fmt.Sprintf("backup-loop-%d", backlog))
 		cs.End()
+	}
+}
+
+// directedSecondDatabase: besides "db" the node has a second database whose name contains
+// characters that are special in URLs (legal: only '/' and NUL are forbidden); it is synced for
+// several rounds through both backup clients.  After every sync the service holds that database
+// under its own name at the node's position.
+func directedSecondDatabase(c *Ctx) {
+	r := c.Rng
+	for _, mode := range []string{"", " lfsc"} {
+		for _, name := range []string{"plain.db", "orders+archive.db", "100%.db", "a b&c=d.db", "caf\u00e9#1.db"} {
+			cs := c.Begin()
+			do := func(op string) string { c.Count("op." + strings.SplitN(op, " ", 2)[0]); return cs.Do(op) }
+			p := newPager(r, 512, do)
+			p.journalMode = "DELETE"
+			do("open primary" + mode)
+			do("createdb")
+			p.journalTx(p.randomShape(3), 0, 0)
+			hx := hex.EncodeToString([]byte(name))
+			for round := 0; round < 3; round++ {
+				v := newVPrimary(r, 512)
+				v.commit(r.Range(1, 3), map[int]bool{})
+				if out := do("xdb " + hx + " " + v.tok0()); out != "ok" {
+					c.Fail(fmt.Sprintf("second database %q: transaction refused: %s", name, out))
+				}
+				if round > 0 {
+					pagerStep(c, p, 3)
+				}
+				do("backup-sync")
+				if out := do("xdb-check"); out != "ok" {
+					c.Fail(fmt.Sprintf("second database %q (%s), round %d: %s", name, strings.TrimSpace(mode+" client"), round, out))
+				}
+				cs.Do(p.refLine())
+				do("state")
+				do("svc")
+				do("hwm")
+			}
+			cs.End()
+			c.Count("directed.second-database")
+			c.Nontrivial("second-database-" + hx + mode)
+		}
 	}
 }
